@@ -58,9 +58,12 @@ func main() {
 		func() {
 			defer func() {
 				if p := recover(); p != nil {
-					// an escaping panic in the harness itself is an internal error, not a verdict
-					fmt.Fprintf(os.Stderr, "internal error in check %s: %v\n%s\n", id, p, debug.Stack())
-					os.Exit(3)
+					// the check's own routine relies on honest-path calls of the implementation succeeding
+					// (a chain boots, an honest block is accepted): when one fails, that is the verdict - on
+					// the unchanged tree none does. The stack goes to stderr for the case that it is the harness.
+					fmt.Fprintf(os.Stderr, "check %s aborted: %v\n%s\n", id, p, debug.Stack())
+					mc.GuardValue(p)
+					r.Cap("the check's main routine was aborted by a failing honest-path call")
 				}
 			}()
 			c.Run(r)
